@@ -31,6 +31,9 @@ def main(argv):
     logging.getLogger("formulae").setLevel(logging.CRITICAL)
     logging.getLogger("formulae").handlers[:] = [logging.NullHandler()]
     warnings.simplefilter("ignore")
+    import formulae.terms.call as _fc
+    import formulae.terms.variable as _fv
+    _fc.print = _fv.print = lambda *a, **k: None      # the debug print inside formulae's 'except: print(...); raise'
     mod = importlib.import_module(f"vf.props.{prop}")
     if replay:
         with open(replay) as fh:
